@@ -5,7 +5,7 @@ from vt.sqlsym import asserts as A
 LEVEL = 'model_checking'
 EXPLANATION = ('After every operation: each job\'s (old state, new state) pair is an allowed lifecycle edge (Pending->Ready, '
                'Ready->Creating/Running/terminal, Creating->Running/Ready/terminal, Running->Ready/terminal, terminal '
-               'absorbing), no job row disappears, and n_completed/n_succeeded/n_failed/n_cancelled of every job group equal '
+               'absorbing; a Creating/Running job is Ready afterwards only if the operation ended its current attempt), no job row disappears, and n_completed/n_succeeded/n_failed/n_cancelled of every job group equal '
                'the count of terminal jobs in its subtree (so duplicates, stale-attempt and late reports count once).'
                + sc_.BMC_TEXT)
 
@@ -14,6 +14,7 @@ def asserts(sc):
     out = list(A.tallies(sc.db))
     if sc.prev is not None:
         out += A.lifecycle_edges(sc.prev, sc.db)
+        out += A.fallback_only_when_withdrawn(sc.prev, sc.db)
     return out
 
 
